@@ -1,13 +1,14 @@
 from pyvc.runner import register_modules
 
-register_modules("C13", "contracts.C13_constants", "contracts.C13_alarms", "bounded.C13_api")
+register_modules("C13", "contracts.C13_constants", "contracts.C13_alarms", "contracts.C13_replies", "bounded.C13_api")
 LEVEL = "other"
 EXPLANATION = ("(VC) EquipmentConstantsCapability._on_s02f15 for requests of 1..3 constants with ANY ids and integer values over ANY table of "
                "constants (symbolic map): EAC 0 exactly when every id is known and every value within limits, then all applied in order, else "
                "nothing written; constants within their limits stay within them; limits untouched.  AlarmCapability.set_alarm / clear_alarm for ANY "
                "alarm id over ANY alarm table: S5F1 exactly on a set/clear change of an alarm that is enabled now, with ALCD = code | set-bit, this "
                "ALID and its text; state and collection event exactly on a change; no other alarm touched.  "
-               "(BND) S1F3/S1F11/S2F13/S2F29/S5F5/S5F7 replies, float and NaN constants, S5F3, histories: real handlers through real messages "
+               "S1F3 / S2F13 for requests of 1..3 ids: exactly the requested items in request order, current value if known, empty item if not.  "
+               "(BND) S1F3/S1F11/S2F13/S2F29/S5F5/S5F7 replies incl. empty requests (all items), float and NaN constants, S5F3, histories: real handlers through real messages "
                "against a reference model, small id domains (stated scope).")
 ASSUMPTIONS = [
     "call-outs assumed at call sites of the VC units: decode of S2F15 yields its list of (ECID, ECV) records (C03), item.get(), _set_ec_value stores the value "
